@@ -108,6 +108,8 @@ def units(tier, seed):
                             continue
                         us.append({"nobj": nobj, "fields": fields, "extra": extra, "only_best": only_best, "text": text,
                                    "L": (3 if nobj > 1 else 4) if tier == "quick" else (4 if nobj > 1 else 5)})
+    for only_best in (True, False):
+        us.append({"nobj": 1, "fields": "given", "extra": "simplegp2", "only_best": only_best, "text": "short", "L": 4, "minimize_list1": True})
     return us
 
 
@@ -133,6 +135,8 @@ def run_unit(unit) -> UnitResult:
 
                     def ff(p):
                         base = table[p.i]
+                        if nobj == 1 and unit.get("minimize_list1"):
+                            return [float(base)]  # a single objective given in list form
                         if nobj == 1:
                             return float(base)
                         return [float(base + 10 * k) for k in range(nobj)]  # distinct per objective
@@ -161,7 +165,8 @@ def run_unit(unit) -> UnitResult:
                         cbs = {"A": lambda ph: f"a:{ph.i}", "B": lambda ph: f"b:{ph.i}"}
                         if unit["fields"] == "given":
                             # through the public constructor (its own problem object is swapped for ours afterwards)
-                            sgp = SimpleGP(ff, _tiny_grammar(), minimize=False if nobj == 1 else [False] * nobj, csv_output=path,
+                            sgp = SimpleGP(ff, _tiny_grammar(), minimize=(False if not unit.get("minimize_list1") else [False]) if nobj == 1 else [False] * nobj,
+                                           csv_output=path,
                                            csv_extra_fields=cbs, only_record_best_individuals=unit["only_best"], population_size=4,
                                            max_evaluations=4, elitism=1, novelty=1)
                             tracker = sgp.gp.tracker
